@@ -298,6 +298,7 @@ def evaluate_cases(mod, cases, timeout):
     stats = dict(lines=0, agree=0, bad_op=0, errors={}, tags={})
     compare = getattr(mod, 'compare', None)
     for c, irs in zip(cases, impl_replies):
+        k_next = k + 1 + len(c['lines'])  # model replies of the next case start here (also after an early break)
         k += 1  # the reset line
         stats['tags'][c.get('tag', '')] = stats['tags'].get(c.get('tag', ''), 0) + 1
         for i, (line, ir) in enumerate(zip(c['lines'], irs)):
@@ -322,6 +323,7 @@ def evaluate_cases(mod, cases, timeout):
                 findings[-1].line_index = i
                 findings[-1].model = mr
                 break
+        k = k_next
     return findings, stats, impl_replies
 
 
